@@ -62,8 +62,31 @@ let rec sub n m =
             | O -> n
             | S l -> sub k l)
 
+(** val gmax : ('a1 -> 'a1 -> comparison) -> 'a1 -> 'a1 -> 'a1 **)
+
+let gmax cmp x y =
+  match cmp x y with
+  | Lt -> y
+  | _ -> x
+
+(** val gmin : ('a1 -> 'a1 -> comparison) -> 'a1 -> 'a1 -> 'a1 **)
+
+let gmin cmp x y =
+  match cmp x y with
+  | Gt -> y
+  | _ -> x
+
 module Nat =
  struct
+  (** val sub : nat -> nat -> nat **)
+
+  let rec sub n m =
+    match n with
+    | O -> n
+    | S k -> (match m with
+              | O -> n
+              | S l -> sub k l)
+
   (** val eqb : nat -> nat -> bool **)
 
   let rec eqb n m =
@@ -88,6 +111,37 @@ module Nat =
 
   let ltb n m =
     leb (S n) m
+
+  (** val max : nat -> nat -> nat **)
+
+  let rec max n m =
+    match n with
+    | O -> m
+    | S n' -> (match m with
+               | O -> n
+               | S m' -> S (max n' m'))
+
+  (** val divmod : nat -> nat -> nat -> nat -> nat * nat **)
+
+  let rec divmod x y q0 u =
+    match x with
+    | O -> (q0, u)
+    | S x' ->
+      (match u with
+       | O -> divmod x' y (S q0) y
+       | S u' -> divmod x' y q0 u')
+
+  (** val div : nat -> nat -> nat **)
+
+  let div x y = match y with
+  | O -> y
+  | S y' -> fst (divmod x y' O y')
+
+  (** val modulo : nat -> nat -> nat **)
+
+  let modulo x = function
+  | O -> x
+  | S y' -> sub y' (snd (divmod x y' O y'))
  end
 
 (** val nth : nat -> 'a1 list -> 'a1 -> 'a1 **)
@@ -110,6 +164,12 @@ let rec nth_error l = function
 | S n0 -> (match l with
            | [] -> None
            | _ :: l0 -> nth_error l0 n0)
+
+(** val concat : 'a1 list list -> 'a1 list **)
+
+let rec concat = function
+| [] -> []
+| x :: l0 -> app x (concat l0)
 
 (** val map : ('a1 -> 'a2) -> 'a1 list -> 'a2 list **)
 
@@ -161,6 +221,15 @@ let rec firstn n l =
              | [] -> []
              | a :: l0 -> a :: (firstn n0 l0))
 
+(** val skipn : nat -> 'a1 list -> 'a1 list **)
+
+let rec skipn n l =
+  match n with
+  | O -> l
+  | S n0 -> (match l with
+             | [] -> []
+             | _ :: l0 -> skipn n0 l0)
+
 (** val repeat : 'a1 -> nat -> 'a1 list **)
 
 let rec repeat x = function
@@ -179,6 +248,14 @@ type z =
 
 module Pos =
  struct
+  type mask =
+  | IsNul
+  | IsPos of positive
+  | IsNeg
+ end
+
+module Coq_Pos =
+ struct
   (** val succ : positive -> positive **)
 
   let rec succ = function
@@ -192,17 +269,17 @@ module Pos =
     match x with
     | XI p ->
       (match y with
-       | XI q -> XO (add_carry p q)
-       | XO q -> XI (add p q)
+       | XI q0 -> XO (add_carry p q0)
+       | XO q0 -> XI (add p q0)
        | XH -> XO (succ p))
     | XO p ->
       (match y with
-       | XI q -> XI (add p q)
-       | XO q -> XO (add p q)
+       | XI q0 -> XI (add p q0)
+       | XO q0 -> XO (add p q0)
        | XH -> XI p)
     | XH -> (match y with
-             | XI q -> XO (succ q)
-             | XO q -> XI q
+             | XI q0 -> XO (succ q0)
+             | XO q0 -> XI q0
              | XH -> XO XH)
 
   (** val add_carry : positive -> positive -> positive **)
@@ -211,18 +288,18 @@ module Pos =
     match x with
     | XI p ->
       (match y with
-       | XI q -> XI (add_carry p q)
-       | XO q -> XO (add_carry p q)
+       | XI q0 -> XI (add_carry p q0)
+       | XO q0 -> XO (add_carry p q0)
        | XH -> XI (succ p))
     | XO p ->
       (match y with
-       | XI q -> XO (add_carry p q)
-       | XO q -> XI (add p q)
+       | XI q0 -> XO (add_carry p q0)
+       | XO q0 -> XI (add p q0)
        | XH -> XO (succ p))
     | XH ->
       (match y with
-       | XI q -> XI (succ q)
-       | XO q -> XO (succ q)
+       | XI q0 -> XI (succ q0)
+       | XO q0 -> XO (succ q0)
        | XH -> XI XH)
 
   (** val pred_double : positive -> positive **)
@@ -232,6 +309,72 @@ module Pos =
   | XO p -> XI (pred_double p)
   | XH -> XH
 
+  type mask = Pos.mask =
+  | IsNul
+  | IsPos of positive
+  | IsNeg
+
+  (** val succ_double_mask : mask -> mask **)
+
+  let succ_double_mask = function
+  | IsNul -> IsPos XH
+  | IsPos p -> IsPos (XI p)
+  | IsNeg -> IsNeg
+
+  (** val double_mask : mask -> mask **)
+
+  let double_mask = function
+  | IsPos p -> IsPos (XO p)
+  | x0 -> x0
+
+  (** val double_pred_mask : positive -> mask **)
+
+  let double_pred_mask = function
+  | XI p -> IsPos (XO (XO p))
+  | XO p -> IsPos (XO (pred_double p))
+  | XH -> IsNul
+
+  (** val sub_mask : positive -> positive -> mask **)
+
+  let rec sub_mask x y =
+    match x with
+    | XI p ->
+      (match y with
+       | XI q0 -> double_mask (sub_mask p q0)
+       | XO q0 -> succ_double_mask (sub_mask p q0)
+       | XH -> IsPos (XO p))
+    | XO p ->
+      (match y with
+       | XI q0 -> succ_double_mask (sub_mask_carry p q0)
+       | XO q0 -> double_mask (sub_mask p q0)
+       | XH -> IsPos (pred_double p))
+    | XH -> (match y with
+             | XH -> IsNul
+             | _ -> IsNeg)
+
+  (** val sub_mask_carry : positive -> positive -> mask **)
+
+  and sub_mask_carry x y =
+    match x with
+    | XI p ->
+      (match y with
+       | XI q0 -> succ_double_mask (sub_mask_carry p q0)
+       | XO q0 -> double_mask (sub_mask p q0)
+       | XH -> IsPos (pred_double p))
+    | XO p ->
+      (match y with
+       | XI q0 -> double_mask (sub_mask_carry p q0)
+       | XO q0 -> succ_double_mask (sub_mask_carry p q0)
+       | XH -> double_pred_mask p)
+    | XH -> IsNeg
+
+  (** val sub : positive -> positive -> positive **)
+
+  let sub x y =
+    match sub_mask x y with
+    | IsPos z0 -> z0
+    | _ -> XH
+
   (** val mul : positive -> positive -> positive **)
 
   let rec mul x y =
@@ -240,19 +383,26 @@ module Pos =
     | XO p -> XO (mul p y)
     | XH -> y
 
+  (** val size_nat : positive -> nat **)
+
+  let rec size_nat = function
+  | XI p0 -> S (size_nat p0)
+  | XO p0 -> S (size_nat p0)
+  | XH -> S O
+
   (** val compare_cont : comparison -> positive -> positive -> comparison **)
 
   let rec compare_cont r x y =
     match x with
     | XI p ->
       (match y with
-       | XI q -> compare_cont r p q
-       | XO q -> compare_cont Gt p q
+       | XI q0 -> compare_cont r p q0
+       | XO q0 -> compare_cont Gt p q0
        | XH -> Gt)
     | XO p ->
       (match y with
-       | XI q -> compare_cont Lt p q
-       | XO q -> compare_cont r p q
+       | XI q0 -> compare_cont Lt p q0
+       | XO q0 -> compare_cont r p q0
        | XH -> Gt)
     | XH -> (match y with
              | XH -> r
@@ -262,6 +412,43 @@ module Pos =
 
   let compare =
     compare_cont Eq
+
+  (** val ggcdn :
+      nat -> positive -> positive -> positive * (positive * positive) **)
+
+  let rec ggcdn n a b =
+    match n with
+    | O -> (XH, (a, b))
+    | S n0 ->
+      (match a with
+       | XI a' ->
+         (match b with
+          | XI b' ->
+            (match compare a' b' with
+             | Eq -> (a, (XH, XH))
+             | Lt ->
+               let (g, p) = ggcdn n0 (sub b' a') a in
+               let (ba, aa) = p in (g, (aa, (add aa (XO ba))))
+             | Gt ->
+               let (g, p) = ggcdn n0 (sub a' b') b in
+               let (ab, bb) = p in (g, ((add bb (XO ab)), bb)))
+          | XO b0 ->
+            let (g, p) = ggcdn n0 a b0 in
+            let (aa, bb) = p in (g, (aa, (XO bb)))
+          | XH -> (XH, (a, XH)))
+       | XO a0 ->
+         (match b with
+          | XI _ ->
+            let (g, p) = ggcdn n0 a0 b in
+            let (aa, bb) = p in (g, ((XO aa), bb))
+          | XO b0 -> let (g, p) = ggcdn n0 a0 b0 in ((XO g), p)
+          | XH -> (XH, (a, XH)))
+       | XH -> (XH, (XH, b)))
+
+  (** val ggcd : positive -> positive -> positive * (positive * positive) **)
+
+  let ggcd a b =
+    ggcdn (Coq__1.add (size_nat a) (size_nat b)) a b
 
   (** val iter_op : ('a1 -> 'a1 -> 'a1) -> positive -> 'a1 -> 'a1 **)
 
@@ -297,13 +484,13 @@ module Z =
   let succ_double = function
   | Z0 -> Zpos XH
   | Zpos p -> Zpos (XI p)
-  | Zneg p -> Zneg (Pos.pred_double p)
+  | Zneg p -> Zneg (Coq_Pos.pred_double p)
 
   (** val pred_double : z -> z **)
 
   let pred_double = function
   | Z0 -> Zneg XH
-  | Zpos p -> Zpos (Pos.pred_double p)
+  | Zpos p -> Zpos (Coq_Pos.pred_double p)
   | Zneg p -> Zneg (XI p)
 
   (** val pos_sub : positive -> positive -> z **)
@@ -312,18 +499,18 @@ module Z =
     match x with
     | XI p ->
       (match y with
-       | XI q -> double (pos_sub p q)
-       | XO q -> succ_double (pos_sub p q)
+       | XI q0 -> double (pos_sub p q0)
+       | XO q0 -> succ_double (pos_sub p q0)
        | XH -> Zpos (XO p))
     | XO p ->
       (match y with
-       | XI q -> pred_double (pos_sub p q)
-       | XO q -> double (pos_sub p q)
-       | XH -> Zpos (Pos.pred_double p))
+       | XI q0 -> pred_double (pos_sub p q0)
+       | XO q0 -> double (pos_sub p q0)
+       | XH -> Zpos (Coq_Pos.pred_double p))
     | XH ->
       (match y with
-       | XI q -> Zneg (XO q)
-       | XO q -> Zneg (Pos.pred_double q)
+       | XI q0 -> Zneg (XO q0)
+       | XO q0 -> Zneg (Coq_Pos.pred_double q0)
        | XH -> Z0)
 
   (** val add : z -> z -> z **)
@@ -334,13 +521,13 @@ module Z =
     | Zpos x' ->
       (match y with
        | Z0 -> x
-       | Zpos y' -> Zpos (Pos.add x' y')
+       | Zpos y' -> Zpos (Coq_Pos.add x' y')
        | Zneg y' -> pos_sub x' y')
     | Zneg x' ->
       (match y with
        | Z0 -> x
        | Zpos y' -> pos_sub y' x'
-       | Zneg y' -> Zneg (Pos.add x' y'))
+       | Zneg y' -> Zneg (Coq_Pos.add x' y'))
 
   (** val opp : z -> z **)
 
@@ -348,6 +535,11 @@ module Z =
   | Z0 -> Z0
   | Zpos x0 -> Zneg x0
   | Zneg x0 -> Zpos x0
+
+  (** val sub : z -> z -> z **)
+
+  let sub m n =
+    add m (opp n)
 
   (** val mul : z -> z -> z **)
 
@@ -357,13 +549,13 @@ module Z =
     | Zpos x' ->
       (match y with
        | Z0 -> Z0
-       | Zpos y' -> Zpos (Pos.mul x' y')
-       | Zneg y' -> Zneg (Pos.mul x' y'))
+       | Zpos y' -> Zpos (Coq_Pos.mul x' y')
+       | Zneg y' -> Zneg (Coq_Pos.mul x' y'))
     | Zneg x' ->
       (match y with
        | Z0 -> Z0
-       | Zpos y' -> Zneg (Pos.mul x' y')
-       | Zneg y' -> Zpos (Pos.mul x' y'))
+       | Zpos y' -> Zneg (Coq_Pos.mul x' y')
+       | Zneg y' -> Zpos (Coq_Pos.mul x' y'))
 
   (** val compare : z -> z -> comparison **)
 
@@ -374,12 +566,26 @@ module Z =
              | Zpos _ -> Lt
              | Zneg _ -> Gt)
     | Zpos x' -> (match y with
-                  | Zpos y' -> Pos.compare x' y'
+                  | Zpos y' -> Coq_Pos.compare x' y'
                   | _ -> Gt)
     | Zneg x' ->
       (match y with
-       | Zneg y' -> compOpp (Pos.compare x' y')
+       | Zneg y' -> compOpp (Coq_Pos.compare x' y')
        | _ -> Lt)
+
+  (** val sgn : z -> z **)
+
+  let sgn = function
+  | Z0 -> Z0
+  | Zpos _ -> Zpos XH
+  | Zneg _ -> Zneg XH
+
+  (** val leb : z -> z -> bool **)
+
+  let leb x y =
+    match compare x y with
+    | Gt -> false
+    | _ -> true
 
   (** val ltb : z -> z -> bool **)
 
@@ -388,18 +594,178 @@ module Z =
     | Lt -> true
     | _ -> false
 
+  (** val max : z -> z -> z **)
+
+  let max n m =
+    match compare n m with
+    | Lt -> m
+    | _ -> n
+
+  (** val min : z -> z -> z **)
+
+  let min n m =
+    match compare n m with
+    | Gt -> m
+    | _ -> n
+
+  (** val abs : z -> z **)
+
+  let abs = function
+  | Zneg p -> Zpos p
+  | x -> x
+
   (** val to_nat : z -> nat **)
 
   let to_nat = function
-  | Zpos p -> Pos.to_nat p
+  | Zpos p -> Coq_Pos.to_nat p
   | _ -> O
 
   (** val of_nat : nat -> z **)
 
   let of_nat = function
   | O -> Z0
-  | S n0 -> Zpos (Pos.of_succ_nat n0)
+  | S n0 -> Zpos (Coq_Pos.of_succ_nat n0)
+
+  (** val to_pos : z -> positive **)
+
+  let to_pos = function
+  | Zpos p -> p
+  | _ -> XH
+
+  (** val pos_div_eucl : positive -> z -> z * z **)
+
+  let rec pos_div_eucl a b =
+    match a with
+    | XI a' ->
+      let (q0, r) = pos_div_eucl a' b in
+      let r' = add (mul (Zpos (XO XH)) r) (Zpos XH) in
+      if ltb r' b
+      then ((mul (Zpos (XO XH)) q0), r')
+      else ((add (mul (Zpos (XO XH)) q0) (Zpos XH)), (sub r' b))
+    | XO a' ->
+      let (q0, r) = pos_div_eucl a' b in
+      let r' = mul (Zpos (XO XH)) r in
+      if ltb r' b
+      then ((mul (Zpos (XO XH)) q0), r')
+      else ((add (mul (Zpos (XO XH)) q0) (Zpos XH)), (sub r' b))
+    | XH -> if leb (Zpos (XO XH)) b then (Z0, (Zpos XH)) else ((Zpos XH), Z0)
+
+  (** val div_eucl : z -> z -> z * z **)
+
+  let div_eucl a b =
+    match a with
+    | Z0 -> (Z0, Z0)
+    | Zpos a' ->
+      (match b with
+       | Z0 -> (Z0, a)
+       | Zpos _ -> pos_div_eucl a' b
+       | Zneg b' ->
+         let (q0, r) = pos_div_eucl a' (Zpos b') in
+         (match r with
+          | Z0 -> ((opp q0), Z0)
+          | _ -> ((opp (add q0 (Zpos XH))), (add b r))))
+    | Zneg a' ->
+      (match b with
+       | Z0 -> (Z0, a)
+       | Zpos _ ->
+         let (q0, r) = pos_div_eucl a' b in
+         (match r with
+          | Z0 -> ((opp q0), Z0)
+          | _ -> ((opp (add q0 (Zpos XH))), (sub b r)))
+       | Zneg b' -> let (q0, r) = pos_div_eucl a' (Zpos b') in (q0, (opp r)))
+
+  (** val div : z -> z -> z **)
+
+  let div a b =
+    let (q0, _) = div_eucl a b in q0
+
+  (** val modulo : z -> z -> z **)
+
+  let modulo a b =
+    let (_, r) = div_eucl a b in r
+
+  (** val ggcd : z -> z -> z * (z * z) **)
+
+  let ggcd a b =
+    match a with
+    | Z0 -> ((abs b), (Z0, (sgn b)))
+    | Zpos a0 ->
+      (match b with
+       | Z0 -> ((abs a), ((sgn a), Z0))
+       | Zpos b0 ->
+         let (g, p) = Coq_Pos.ggcd a0 b0 in
+         let (aa, bb) = p in ((Zpos g), ((Zpos aa), (Zpos bb)))
+       | Zneg b0 ->
+         let (g, p) = Coq_Pos.ggcd a0 b0 in
+         let (aa, bb) = p in ((Zpos g), ((Zpos aa), (Zneg bb))))
+    | Zneg a0 ->
+      (match b with
+       | Z0 -> ((abs a), ((sgn a), Z0))
+       | Zpos b0 ->
+         let (g, p) = Coq_Pos.ggcd a0 b0 in
+         let (aa, bb) = p in ((Zpos g), ((Zneg aa), (Zpos bb)))
+       | Zneg b0 ->
+         let (g, p) = Coq_Pos.ggcd a0 b0 in
+         let (aa, bb) = p in ((Zpos g), ((Zneg aa), (Zneg bb))))
  end
+
+type q = { qnum : z; qden : positive }
+
+(** val inject_Z : z -> q **)
+
+let inject_Z x =
+  { qnum = x; qden = XH }
+
+(** val qcompare : q -> q -> comparison **)
+
+let qcompare p q0 =
+  Z.compare (Z.mul p.qnum (Zpos q0.qden)) (Z.mul q0.qnum (Zpos p.qden))
+
+(** val qle_bool : q -> q -> bool **)
+
+let qle_bool x y =
+  Z.leb (Z.mul x.qnum (Zpos y.qden)) (Z.mul y.qnum (Zpos x.qden))
+
+(** val qplus : q -> q -> q **)
+
+let qplus x y =
+  { qnum = (Z.add (Z.mul x.qnum (Zpos y.qden)) (Z.mul y.qnum (Zpos x.qden)));
+    qden = (Coq_Pos.mul x.qden y.qden) }
+
+(** val qmult : q -> q -> q **)
+
+let qmult x y =
+  { qnum = (Z.mul x.qnum y.qnum); qden = (Coq_Pos.mul x.qden y.qden) }
+
+(** val qopp : q -> q **)
+
+let qopp x =
+  { qnum = (Z.opp x.qnum); qden = x.qden }
+
+(** val qminus : q -> q -> q **)
+
+let qminus x y =
+  qplus x (qopp y)
+
+(** val qinv : q -> q **)
+
+let qinv x =
+  match x.qnum with
+  | Z0 -> { qnum = Z0; qden = XH }
+  | Zpos p -> { qnum = (Zpos x.qden); qden = p }
+  | Zneg p -> { qnum = (Zneg x.qden); qden = p }
+
+(** val qdiv : q -> q -> q **)
+
+let qdiv x y =
+  qmult x (qinv y)
+
+(** val qred : q -> q **)
+
+let qred q0 =
+  let { qnum = q1; qden = q2 } = q0 in
+  let (r1, r2) = snd (Z.ggcd q1 (Zpos q2)) in
+  { qnum = r1; qden = (Z.to_pos r2) }
 
 type sx =
 | SZ of z
@@ -451,6 +817,44 @@ let dlist f = function
 | SZ _ -> None
 | SL l -> opt_all (map f l)
 
+(** val dq : sx -> q option **)
+
+let dq = function
+| SZ _ -> None
+| SL l ->
+  (match l with
+   | [] -> None
+   | s0 :: l0 ->
+     (match s0 with
+      | SZ n ->
+        (match l0 with
+         | [] -> None
+         | s1 :: l1 ->
+           (match s1 with
+            | SZ d ->
+              (match l1 with
+               | [] ->
+                 if Z.ltb Z0 d
+                 then Some { qnum = n; qden = (Z.to_pos d) }
+                 else None
+               | _ :: _ -> None)
+            | SL _ -> None))
+      | SL _ -> None))
+
+(** val dopt : (sx -> 'a1 option) -> sx -> 'a1 option option **)
+
+let dopt f = function
+| SZ _ -> None
+| SL l ->
+  (match l with
+   | [] -> Some None
+   | x :: l0 ->
+     (match l0 with
+      | [] -> (match f x with
+               | Some v -> Some (Some v)
+               | None -> None)
+      | _ :: _ -> None))
+
 (** val ez : z -> sx **)
 
 let ez z0 =
@@ -471,11 +875,450 @@ let ebool b =
 let elist f l =
   SL (map f l)
 
+(** val eq_ : q -> sx **)
+
+let eq_ q0 =
+  let r = qred q0 in SL ((SZ r.qnum) :: ((SZ (Zpos r.qden)) :: []))
+
 (** val eopt : ('a1 -> sx) -> 'a1 option -> sx **)
 
 let eopt f = function
 | Some x -> SL ((f x) :: [])
 | None -> SL []
+
+(** val prodZ : z list -> z **)
+
+let rec prodZ = function
+| [] -> Zpos XH
+| d :: t -> Z.mul d (prodZ t)
+
+(** val ravelZ : z list -> z list -> z **)
+
+let rec ravelZ dims g =
+  match dims with
+  | [] -> Z0
+  | _ :: dt ->
+    (match g with
+     | [] -> Z0
+     | x :: gt -> Z.add (Z.mul x (prodZ dt)) (ravelZ dt gt))
+
+(** val unravelZ : z list -> z -> z list **)
+
+let rec unravelZ dims i =
+  match dims with
+  | [] -> []
+  | _ :: dt -> (Z.div i (prodZ dt)) :: (unravelZ dt (Z.modulo i (prodZ dt)))
+
+(** val qfloor : q -> z **)
+
+let qfloor x =
+  let { qnum = n; qden = d } = x in Z.div n (Zpos d)
+
+(** val qceiling : q -> z **)
+
+let qceiling x =
+  Z.opp (qfloor (qopp x))
+
+(** val qmax : q -> q -> q **)
+
+let qmax =
+  gmax qcompare
+
+(** val qmin : q -> q -> q **)
+
+let qmin =
+  gmin qcompare
+
+(** val qtrunc : q -> z **)
+
+let qtrunc x =
+  if qle_bool { qnum = Z0; qden = XH } x then qfloor x else qceiling x
+
+(** val clipZ : z -> z -> z -> z **)
+
+let clipZ lo hi x =
+  Z.min (Z.max x lo) hi
+
+(** val clipQ : q -> q -> q -> q **)
+
+let clipQ lo hi x =
+  qmin (qmax x lo) hi
+
+(** val grid_raw : z -> q -> q -> q -> q -> q **)
+
+let grid_raw d lo hi eps m =
+  qdiv (qplus (qmult (inject_Z d) (qminus m lo)) eps) (qminus hi lo)
+
+(** val grid_idx1 : z -> q -> q -> q -> q -> z **)
+
+let grid_idx1 d lo hi eps m =
+  clipZ Z0 (Z.sub d (Zpos XH)) (qtrunc (grid_raw d lo hi eps m))
+
+(** val int32_min : z **)
+
+let int32_min =
+  Zneg (XO (XO (XO (XO (XO (XO (XO (XO (XO (XO (XO (XO (XO (XO (XO (XO (XO
+    (XO (XO (XO (XO (XO (XO (XO (XO (XO (XO (XO (XO (XO (XO
+    XH)))))))))))))))))))))))))))))))
+
+(** val int32_max : z **)
+
+let int32_max =
+  Zpos (XI (XI (XI (XI (XI (XI (XI (XI (XI (XI (XI (XI (XI (XI (XI (XI (XI
+    (XI (XI (XI (XI (XI (XI (XI (XI (XI (XI (XI (XI (XI
+    XH))))))))))))))))))))))))))))))
+
+(** val cast_int32 : q -> z **)
+
+let cast_int32 x =
+  let t = qtrunc x in
+  if (&&) (Z.leb int32_min t) (Z.leb t int32_max) then t else int32_min
+
+(** val grid_idx1_int32_first : z -> q -> q -> q -> q -> z **)
+
+let grid_idx1_int32_first d lo hi eps m =
+  clipZ Z0 (Z.sub d (Zpos XH)) (cast_int32 (grid_raw d lo hi eps m))
+
+type gdim = { gd : z; glo : q; ghi : q }
+
+(** val grid_cells :
+    (z -> q -> q -> q -> q -> z) -> q -> gdim list -> q list -> z list **)
+
+let rec grid_cells idx1 eps cfg m =
+  match cfg with
+  | [] -> []
+  | c :: ct ->
+    (match m with
+     | [] -> []
+     | x :: mt -> (idx1 c.gd c.glo c.ghi eps x) :: (grid_cells idx1 eps ct mt))
+
+(** val grid_dims : gdim list -> z list **)
+
+let grid_dims cfg =
+  map (fun g -> g.gd) cfg
+
+(** val grid_to_int_index : gdim list -> z list -> z **)
+
+let grid_to_int_index cfg g =
+  ravelZ (grid_dims cfg) g
+
+(** val grid_index_of_one : q -> gdim list -> q list -> z **)
+
+let grid_index_of_one eps cfg m =
+  grid_to_int_index cfg (grid_cells grid_idx1 eps cfg m)
+
+(** val grid_index_of : q -> gdim list -> q list list -> z list **)
+
+let grid_index_of eps cfg ms =
+  map (grid_index_of_one eps cfg) ms
+
+(** val grid_index_of_single : q -> gdim list -> q list -> z **)
+
+let grid_index_of_single eps cfg m =
+  nth O (grid_index_of eps cfg (m :: [])) Z0
+
+(** val grid_index_of_one_int32_first : q -> gdim list -> q list -> z **)
+
+let grid_index_of_one_int32_first eps cfg m =
+  grid_to_int_index cfg (grid_cells grid_idx1_int32_first eps cfg m)
+
+(** val dist2 : q list -> q list -> q **)
+
+let rec dist2 a b =
+  match a with
+  | [] -> { qnum = Z0; qden = XH }
+  | x :: at_ ->
+    (match b with
+     | [] -> { qnum = Z0; qden = XH }
+     | y :: bt -> qplus (qmult (qminus x y) (qminus x y)) (dist2 at_ bt))
+
+(** val argmin_pair : q list -> (nat * q) option **)
+
+let rec argmin_pair = function
+| [] -> None
+| x :: t ->
+  (match argmin_pair t with
+   | Some p ->
+     let (r, v) = p in if qle_bool x v then Some (O, x) else Some ((S r), v)
+   | None -> Some (O, x))
+
+(** val argmin_first : q list -> nat **)
+
+let argmin_first l =
+  match argmin_pair l with
+  | Some p -> let (r, _) = p in r
+  | None -> O
+
+(** val cvt_index_one : q list list -> q list -> nat **)
+
+let cvt_index_one cs m =
+  argmin_first (map (dist2 m) cs)
+
+(** val cvt_index_of : q list list -> q list list -> nat list **)
+
+let cvt_index_of cs ms =
+  map (cvt_index_one cs) ms
+
+(** val split_sizes : 'a1 list -> nat list -> 'a1 list list **)
+
+let rec split_sizes l = function
+| [] -> []
+| s :: t -> (firstn s l) :: (split_sizes (skipn s l) t)
+
+(** val array_split : 'a1 list -> nat -> 'a1 list list **)
+
+let array_split l n =
+  let len0 = length l in
+  split_sizes l
+    (app (repeat (S (Nat.div len0 n)) (Nat.modulo len0 n))
+      (repeat (Nat.div len0 n) (sub n (Nat.modulo len0 n))))
+
+(** val ceil_div : nat -> nat -> nat **)
+
+let ceil_div a b =
+  Nat.div (sub (add a b) (S O)) b
+
+(** val cvt_index_of_chunked :
+    q list list -> nat option -> q list list -> nat list **)
+
+let cvt_index_of_chunked cs chunk ms =
+  match chunk with
+  | Some k ->
+    if Nat.ltb k (length ms)
+    then concat
+           (map (cvt_index_of cs) (array_split ms (ceil_div (length ms) k)))
+    else cvt_index_of cs ms
+  | None -> cvt_index_of cs ms
+
+(** val searchsorted_left : q list -> q -> nat **)
+
+let rec searchsorted_left a x =
+  match a with
+  | [] -> O
+  | y :: t -> if qle_bool x y then O else S (searchsorted_left t x)
+
+(** val sb_idx1_x : nat -> q list -> q -> q -> q -> nat **)
+
+let sb_idx1_x d b lo hi_e x =
+  Nat.max O (sub (searchsorted_left (firstn d b) (clipQ lo hi_e x)) (S O))
+
+type sdim = { sd : nat; sbnd : q list; slo : q; shi_e : q }
+
+(** val sb_cells : sdim list -> q list -> nat list **)
+
+let rec sb_cells cfg x =
+  match cfg with
+  | [] -> []
+  | c :: ct ->
+    (match x with
+     | [] -> []
+     | v :: xt -> (sb_idx1_x c.sd c.sbnd c.slo c.shi_e v) :: (sb_cells ct xt))
+
+(** val sb_dims : sdim list -> z list **)
+
+let sb_dims cfg =
+  map (fun c -> Z.of_nat c.sd) cfg
+
+(** val sb_index_of_one : sdim list -> q list -> z **)
+
+let sb_index_of_one cfg x =
+  ravelZ (sb_dims cfg) (map Z.of_nat (sb_cells cfg x))
+
+(** val dgdim : sx -> gdim option **)
+
+let dgdim = function
+| SZ _ -> None
+| SL l ->
+  (match l with
+   | [] -> None
+   | d :: l0 ->
+     (match l0 with
+      | [] -> None
+      | lo :: l1 ->
+        (match l1 with
+         | [] -> None
+         | hi :: l2 ->
+           (match l2 with
+            | [] ->
+              (match dz d with
+               | Some dd ->
+                 (match dq lo with
+                  | Some l3 ->
+                    (match dq hi with
+                     | Some h -> Some { gd = dd; glo = l3; ghi = h }
+                     | None -> None)
+                  | None -> None)
+               | None -> None)
+            | _ :: _ -> None))))
+
+(** val dsdim : sx -> sdim option **)
+
+let dsdim = function
+| SZ _ -> None
+| SL l ->
+  (match l with
+   | [] -> None
+   | d :: l0 ->
+     (match l0 with
+      | [] -> None
+      | b :: l1 ->
+        (match l1 with
+         | [] -> None
+         | lo :: l2 ->
+           (match l2 with
+            | [] -> None
+            | hie :: l3 ->
+              (match l3 with
+               | [] ->
+                 (match dnat d with
+                  | Some dd ->
+                    (match dlist dq b with
+                     | Some bb ->
+                       (match dq lo with
+                        | Some l4 ->
+                          (match dq hie with
+                           | Some h ->
+                             Some { sd = dd; sbnd = bb; slo = l4; shi_e = h }
+                           | None -> None)
+                        | None -> None)
+                     | None -> None)
+                  | None -> None)
+               | _ :: _ -> None)))))
+
+(** val run_C03 : sx -> sx **)
+
+let run_C03 = function
+| SZ _ -> sx_fail
+| SL l ->
+  (match l with
+   | [] -> sx_fail
+   | s :: l0 ->
+     (match s with
+      | SZ z0 ->
+        (match z0 with
+         | Z0 ->
+           (match l0 with
+            | [] -> sx_fail
+            | e :: l1 ->
+              (match l1 with
+               | [] -> sx_fail
+               | c :: l2 ->
+                 (match l2 with
+                  | [] -> sx_fail
+                  | m :: l3 ->
+                    (match l3 with
+                     | [] ->
+                       (match dq e with
+                        | Some eps ->
+                          (match dlist dgdim c with
+                           | Some cfg ->
+                             (match dlist (dlist dq) m with
+                              | Some ms ->
+                                let batch = grid_index_of eps cfg ms in
+                                SL
+                                (map (fun p -> SL
+                                  ((ez (fst p)) :: ((elist ez
+                                                      (grid_cells grid_idx1
+                                                        eps cfg (snd p))) :: (
+                                  (ez (grid_index_of_single eps cfg (snd p))) :: (
+                                  (ez
+                                    (grid_index_of_one_int32_first eps cfg
+                                      (snd p))) :: []))))) (combine batch ms))
+                              | None -> sx_fail)
+                           | None -> sx_fail)
+                        | None -> sx_fail)
+                     | _ :: _ -> sx_fail))))
+         | Zpos p ->
+           (match p with
+            | XI p0 ->
+              (match p0 with
+               | XH ->
+                 (match l0 with
+                  | [] -> sx_fail
+                  | d :: l1 ->
+                    (match l1 with
+                     | [] -> sx_fail
+                     | i :: l2 ->
+                       (match l2 with
+                        | [] -> sx_fail
+                        | g :: l3 ->
+                          (match l3 with
+                           | [] ->
+                             (match dlist dz d with
+                              | Some dims ->
+                                (match dlist dz i with
+                                 | Some ints ->
+                                   (match dlist (dlist dz) g with
+                                    | Some grids ->
+                                      SL
+                                        ((elist (fun k ->
+                                           elist ez (unravelZ dims k)) ints) :: (
+                                        (elist (fun x -> ez (ravelZ dims x))
+                                          grids) :: []))
+                                    | None -> sx_fail)
+                                 | None -> sx_fail)
+                              | None -> sx_fail)
+                           | _ :: _ -> sx_fail))))
+               | _ -> sx_fail)
+            | XO p0 ->
+              (match p0 with
+               | XH ->
+                 (match l0 with
+                  | [] -> sx_fail
+                  | c :: l1 ->
+                    (match l1 with
+                     | [] -> sx_fail
+                     | m :: l2 ->
+                       (match l2 with
+                        | [] ->
+                          (match dlist dsdim c with
+                           | Some cfg ->
+                             (match dlist (dlist dq) m with
+                              | Some xs ->
+                                SL
+                                  (map (fun x -> SL
+                                    ((ez (sb_index_of_one cfg x)) :: (
+                                    (elist enat (sb_cells cfg x)) :: []))) xs)
+                              | None -> sx_fail)
+                           | None -> sx_fail)
+                        | _ :: _ -> sx_fail)))
+               | _ -> sx_fail)
+            | XH ->
+              (match l0 with
+               | [] -> sx_fail
+               | c :: l1 ->
+                 (match l1 with
+                  | [] -> sx_fail
+                  | k :: l2 ->
+                    (match l2 with
+                     | [] -> sx_fail
+                     | m :: l3 ->
+                       (match l3 with
+                        | [] ->
+                          (match dlist (dlist dq) c with
+                           | Some cs ->
+                             (match dopt dnat k with
+                              | Some chunk ->
+                                (match dlist (dlist dq) m with
+                                 | Some ms ->
+                                   let a = cvt_index_of cs ms in
+                                   let b = cvt_index_of_chunked cs chunk ms in
+                                   SL
+                                   (map (fun p0 ->
+                                     let (y, x) = p0 in
+                                     let (i, j) = y in
+                                     SL
+                                     ((enat i) :: ((enat j) :: ((eq_
+                                                                  (dist2 x
+                                                                    (nth i cs
+                                                                    []))) :: []))))
+                                     (combine (combine a b) ms))
+                                 | None -> sx_fail)
+                              | None -> sx_fail)
+                           | None -> sx_fail)
+                        | _ :: _ -> sx_fail)))))
+         | Zneg _ -> sx_fail)
+      | SL _ -> sx_fail))
 
 (** val upd : 'a1 list -> nat -> 'a1 -> 'a1 list **)
 
